@@ -228,7 +228,7 @@ func init() {
 			Old: "\t\ts.facts = append(s.facts, unit)\n", New: "", Expect: "R10.5"},
 		seed{Prop: "C10", Name: "appended-units-recorded-only-without-conflict", File: "solver/solver.go",
 			Old: "\t\ts.facts = append(s.facts, unit)\n\t\tswitch s.litStatus(unit) {\n", New: "\t\tswitch s.litStatus(unit) {\n",
-			More: []edit{{File: "solver/solver.go", Old: "\t\t\t\ts.status = Unsat\n\t\t\t\treturn\n\t\t\t}\n\t\t}\n\t\ts.rebuildOrderHeap()\n", New: "\t\t\t\ts.status = Unsat\n\t\t\t\treturn\n\t\t\t}\n\t\t}\n\t\ts.facts = append(s.facts, unit)\n\t\ts.rebuildOrderHeap()\n"}},
+			More:   []edit{{File: "solver/solver.go", Old: "\t\t\t\ts.status = Unsat\n\t\t\t\treturn\n\t\t\t}\n\t\t}\n\t\ts.rebuildOrderHeap()\n", New: "\t\t\t\ts.status = Unsat\n\t\t\t\treturn\n\t\t\t}\n\t\t}\n\t\ts.facts = append(s.facts, unit)\n\t\ts.rebuildOrderHeap()\n"}},
 			Expect: "R10.5", Note: "not benign: Assume resets the Unsat status and, without the record, the conflicting unit clause is gone"},
 		seed{Prop: "C10", Name: "unsat-without-refutation", File: "solver/solver.go",
 			Old: "\t\tif s.litStatus(lit) == Unsat { // lit contradicts a fact or a previous assumption\n", New: "\t\tif s.litStatus(lit) != Indet {\n", Expect: "R10.2,R10.3"},
